@@ -22,6 +22,8 @@ pub struct Cfg {
     pub defer: Option<(u64, u64)>,
     pub runtime_ct: bool,
     pub lazy: bool,
+    pub usedir: Option<String>,
+    pub savedir: Option<String>,
 }
 
 impl Default for Cfg {
@@ -38,6 +40,8 @@ impl Default for Cfg {
             defer: None,
             runtime_ct: false,
             lazy: false,
+            usedir: None,
+            savedir: None,
         }
     }
 }
@@ -71,6 +75,8 @@ pub fn parse_cfg(script: &str) -> Cfg {
                     }
                     "runtime" => c.runtime_ct = v == "ct",
                     "init" => c.lazy = v == "lazy",
+                    "usedir" => c.usedir = Some(v.to_string()),
+                    "savedir" => c.savedir = Some(v.to_string()),
                     _ => panic!("unknown cfg key {}", k),
                 }
             }
@@ -165,6 +171,21 @@ async fn entries_str<const N: usize>(st: &St<N>, entries: Vec<pearl::Entry>) -> 
         }
     }
     format!("[{}]", parts.join(" "))
+}
+
+fn copy_dir(src: &Path, dst: &Path) {
+    if let Ok(rd) = std::fs::read_dir(src) {
+        for e in rd.flatten() {
+            let p = e.path();
+            let t = dst.join(e.file_name());
+            if p.is_dir() {
+                let _ = std::fs::create_dir_all(&t);
+                copy_dir(&p, &t);
+            } else {
+                let _ = std::fs::copy(&p, &t);
+            }
+        }
+    }
 }
 
 fn list_dir(dir: &Path) -> String {
@@ -478,6 +499,10 @@ pub fn run_script<const N: usize>(script: &str) -> String {
     ));
     let _ = std::fs::remove_dir_all(&dir);
     std::fs::create_dir_all(&dir).expect("mkdir");
+    if let Some(src) = &cfg.usedir {
+        copy_dir(Path::new(src), &dir);
+    }
+    let savedir = cfg.savedir.clone();
     let rt = if cfg.runtime_ct {
         tokio::runtime::Builder::new_current_thread().enable_all().build().unwrap()
     } else {
@@ -518,6 +543,11 @@ pub fn run_script<const N: usize>(script: &str) -> String {
         }
     });
     rt.shutdown_timeout(Duration::from_millis(200));
+    if let Some(dst) = savedir {
+        let _ = std::fs::remove_dir_all(&dst);
+        std::fs::create_dir_all(&dst).expect("mkdir savedir");
+        copy_dir(&dir, Path::new(&dst));
+    }
     let _ = std::fs::remove_dir_all(&dir);
     ctx.out
 }
